@@ -1,3 +1,4 @@
 SPECIFICATION Spec
 CONSTANT DirEntries = FALSE
+CONSTANT Truncates = TRUE
 INVARIANTS RoundTrip
